@@ -14,14 +14,15 @@ func init() { Registry["C01"] = c01 }
 // c01 — HTTP routing: first match wins; 400 > 405 > 404; 503 for an unknown backend.
 //
 // Mutants tried while writing (scratch worktree, each compiles):
-//   swap the 400/405 tests after the loops            → R-C01-4
-//   single `mismatch` variable, last mismatch wins     → R-C01-4
-//   drop the method test                               → R-C01-1
-//   `continue` → `return methodNotAllowed` in the loop → R-C01-3
-//   move the success return after the inner loop       → R-C01-1/R-C01-2
-//   strip the port with LastIndexByte(':')             → R-C01-6
-//   dispatch when GetHandler's ok is false             → R-C01-5
-//   rewrite after Handle                               → R-C01-5
+//
+//	swap the 400/405 tests after the loops            → R-C01-4
+//	single `mismatch` variable, last mismatch wins     → R-C01-4
+//	drop the method test                               → R-C01-1
+//	`continue` → `return methodNotAllowed` in the loop → R-C01-3
+//	move the success return after the inner loop       → R-C01-1/R-C01-2
+//	strip the port with LastIndexByte(':')             → R-C01-6
+//	dispatch when GetHandler's ok is false             → R-C01-5
+//	rewrite after Handle                               → R-C01-5
 func c01(c *core.Ctx) string {
 	c.Rule("R-C01-1", "success-return gate: every (uncached) return of a success route for path p is reached only with host-match, path-match, method-match true and (p has no header conditions or header-match true), all established in the current iteration")
 	c.Rule("R-C01-2", "first match: the search ranges over rules then paths in index order; loop variables are not reassigned; no goto / goroutine; the success return is inside the inner loop")
